@@ -2404,6 +2404,38 @@ def _twin_partial(src):
     return src
 
 
+def _twin_verify_guard_clauses(src):
+    """verify_basin with guard clauses and early returns instead of a result
+    variable"""
+    a = src.index("        if run_identifier and check_avail:\n")
+    b = src.index("        return check_rid and check_avail\n")
+    tail = "        return check_rid and check_avail\n"
+    return src[:a] + (
+        "        if not (run_identifier and check_avail):\n"
+        "            return check_avail\n"
+        "        if self._measurement_identifier_verified:\n"
+        "            return self._measurement_identifier_verified "
+        "and check_avail\n"
+        "        if self.measurement_identifier is None:\n"
+        "            self._measurement_identifier_verified = True\n"
+        "            return self._measurement_identifier_verified "
+        "and check_avail\n"
+        "        if self.mapping == \"same\":\n"
+        "            verifier = str.__eq__\n"
+        "        else:\n"
+        "            verifier = str.startswith\n"
+        "        basin_identifier = self.get_measurement_identifier()\n"
+        "        if basin_identifier is None:\n"
+        "            self._measurement_identifier_verified = False\n"
+        "        else:\n"
+        "            self._measurement_identifier_verified = verifier(\n"
+        "                self.measurement_identifier,\n"
+        "                basin_identifier\n"
+        "            )\n"
+        "        return self._measurement_identifier_verified "
+        "and check_avail\n") + src[b + len(tail):]
+
+
 def _twin_forward_constant(src):
     """forwarding list as module constant, early raise"""
     a = src.index("    def __getattr__(self, item):\n        if item in [\n"
@@ -2458,6 +2490,8 @@ TWINS = [
       "        self._ds.ignore_basins(seen_basin_keys)\n"
       "        return self._ds\n")),
     ("ignore keys collected by a loop and extend()", CORE, _twin_key_loop),
+    ("verify_basin as guard clauses with early returns", FB,
+     _twin_verify_guard_clauses),
     ("URL probe counts its calls in a local", "dclab/http_utils.py",
      ("    avail = False\n    reason = \"none\"\n    if is_http_url(url):\n",
       "    avail = False\n    reason = \"none\"\n    attempts = []\n"
